@@ -419,3 +419,30 @@ def choiceDataB (X : SchemaX) (t : List DNode) : Bool :=
     decide (sheightL X.top ≤ walkFuel X t)
 
 end LyModel.Valid
+
+namespace LyModel.Valid
+open LyModel LyModel.Tree
+
+mutual
+theorem dnode_beq_eq : ∀ (a b : DNode), a.beq b = true → a = b
+  | .term s f m v, .term s' f' m' v', h => by
+    simp only [DNode.beq, Bool.and_eq_true, beq_iff_eq] at h
+    obtain ⟨⟨⟨h1, h2⟩, h3⟩, h4⟩ := h
+    subst h1; subst h2; subst h3; subst h4; rfl
+  | .inner s f m k, .inner s' f' m' k', h => by
+    simp only [DNode.beq, Bool.and_eq_true, beq_iff_eq] at h
+    obtain ⟨⟨⟨h1, h2⟩, h3⟩, h4⟩ := h
+    subst h1; subst h2; subst h3
+    rw [beqL_eq k k' h4]
+  | .term .., .inner .., h => by simp [DNode.beq] at h
+  | .inner .., .term .., h => by simp [DNode.beq] at h
+theorem beqL_eq : ∀ (a b : List DNode), beqL a b = true → a = b
+  | [], [], _ => rfl
+  | x :: xs, y :: ys, h => by
+    simp only [beqL, Bool.and_eq_true] at h
+    rw [dnode_beq_eq x y h.1, beqL_eq xs ys h.2]
+  | [], _ :: _, h => by simp [beqL] at h
+  | _ :: _, [], h => by simp [beqL] at h
+end
+
+end LyModel.Valid
